@@ -26,7 +26,7 @@ from opsim.util import call, weighted
 from operon_ai.cell import IntegratedCell
 from operon_ai.coordination.controller import CellCycleController, Checkpoint
 from operon_ai.coordination.system import CoordinationSystem
-from operon_ai.coordination.types import LockResult, Phase
+from operon_ai.coordination.types import LockResult, Phase, ResourceLock
 
 ID = "C14"
 LEVEL = "fault_enumeration"
@@ -75,7 +75,10 @@ LIMIT = 30.0          # max_operation_time when configured (virtual seconds)
 
 # ------------------------------------------------------------------------------------------ table
 SHAPES = [["a"], ["a", "b"], ["a", "a"], ["a", "b", "a"], ["a", "b", "c"], ["a", "a", "a"], ["b", "a", "b"], []]
-FOREIGN = ["none", "block_first", "block_last", "preempt_first", "preempt_last", "other"]
+FOREIGN = ["none", "block_first", "block_last", "preempt_first", "preempt_last", "other",
+           # the operation *id* owns the lock before this call asks for it: an abandoned earlier context of the same id
+           # (stepping API, still live), or a ResourceLock that was registered already owned
+           "abandoned_first", "abandoned_last", "preowned_first", "preowned_other_id"]
 CP_FAULTS = [["G0", 1], ["G0", 2], ["G1", 1], ["S", 1], ["G2", 1]]
 
 
@@ -129,6 +132,7 @@ def _case(shape, foreign, faults, via_cell, prio=2, fprio=None, preempt=None, du
     if preempt:
         flags.update(preempt)
     pre = []
+    preowned = {}
     if foreign != "none":
         if foreign == "other":
             free = [r for r in RES if r not in reslist]
@@ -136,8 +140,16 @@ def _case(shape, foreign, faults, via_cell, prio=2, fprio=None, preempt=None, du
         elif not reslist:
             target = None
         else:
-            target = reslist[0] if foreign.endswith("first") else reslist[-1]
-        if target is not None:
+            target = reslist[-1] if foreign.endswith("last") else reslist[0]
+        if target is not None and foreign.startswith("abandoned"):
+            pre = [["start", "X", prio], ["acq", "X", target]]
+            if dup_foreign:
+                pre.append(["acq", "X", target])
+            if foreign.endswith("last") and len(set(reslist)) < 3:
+                pre.append(["acq", "X", [r for r in RES if r not in reslist][0]])   # a hold the retry never asks for
+        elif target is not None and foreign.startswith("preowned"):
+            preowned = {target: ["X" if foreign == "preowned_first" else "ghost", 2 if dup_foreign else 1]}
+        elif target is not None:
             if foreign.startswith("preempt"):
                 flags[target] = True
                 fp = 0 if fprio is None else fprio
@@ -151,7 +163,7 @@ def _case(shape, foreign, faults, via_cell, prio=2, fprio=None, preempt=None, du
         reslist = list(reslist)
         reslist[0 if faults["unknown"] == "first" else -1] = "zz"
     cfg = {"res": flags, "limit": True, "starve": False, "progress": False, "via_cell": via_cell,
-           "register_agent": via_cell}
+           "register_agent": via_cell, "preowned": preowned}
     return cfg, pre, ["exec", "X", reslist, prio, faults]
 
 
@@ -166,6 +178,16 @@ def _further(rng, cfg, n, ids):
 
     stepped = list(ids)
     for _ in range(n):
+        if stepped and rng.random() < 0.08:
+            # retry under an id that exists already (still live: its context is abandoned; ended: a fresh operation)
+            rid = rng.choice(stepped)
+            if rng.random() < 0.6:
+                ops.append(["exec", rid, [rng.choice(RES) for _ in range(rng.choice([1, 2, 2, 3]))], rng.choice([0, 2, 7]),
+                            dict(rng.choice(FAULTS)) if rng.random() < 0.4 else {}])
+            else:
+                ops.append(["start", rid, rng.choice([0, 3, 7])])
+                ops.append(["acq", rid, rng.choice(RES)])
+            continue
         kind = weighted(rng, [(4, "exec"), (2.5, "step_acq"), (1.5, "start_acq"), (1, "rel"), (1, "complete"),
                               (1, "abort"), (1.2, "kill"), (1.5, "clock_maint"), (0.8, "shutdown"), (0.6, "maint")])
         if kind == "exec":
@@ -240,6 +262,10 @@ def gen(rng, tier, i):
         pre = pre + [["start", "F1", rng.choice([0, 3, 9])], ["acq", "F1", r]]
         if rng.random() < 0.5:
             pre.append(["acq", "F1", rng.choice([r, r, rng.choice(RES)])])
+    if rng.random() < 0.12 and not cfg["preowned"]:
+        cfg["preowned"] = {rng.choice(RES): [rng.choice(["X", "F0", "N1", "ghost"]), rng.choice([1, 1, 2])]}
+    if rng.random() < 0.1:
+        pre = pre + [["exempt", rng.choice(["F0", "F1", "X"])]]
     ids = [p[1] for p in pre if p[0] == "start"]
     lead = []
     if rng.random() < 0.15:      # the faulted call is not always first
@@ -263,6 +289,11 @@ def simplify(plan):
     for r, fl in cfg["res"].items():
         if fl:
             yield {**plan, "config": {**cfg, "res": {**cfg["res"], r: False}}}
+    for r, (oid_, n_) in (cfg.get("preowned") or {}).items():
+        rest = {a: b for a, b in cfg["preowned"].items() if a != r}
+        yield {**plan, "config": {**cfg, "preowned": rest}}
+        if n_ > 1:
+            yield {**plan, "config": {**cfg, "preowned": {**rest, r: [oid_, 1]}}}
     for j, op in enumerate(plan["ops"]):
         if op[0] != "exec":
             continue
@@ -323,8 +354,16 @@ class World:
             self.cell = IntegratedCell(max_operation_time=kw.get("max_operation_time"))
             self.cell.coordination = self.sys
             k.probe("via_cell")
+        self.orphans = {}            # (opid, r) -> holds the *id* has that no live context of it obtained
         for r in RES:
-            if self.cell is not None:
+            po = (cfg.get("preowned") or {}).get(r)
+            if po:
+                # a lock object registered already owned (public constructor of ResourceLock + register_resource)
+                self.ctrl.register_resource(ResourceLock(resource_id=r, owner=po[0], owner_priority=0, hold_count=po[1],
+                                                         allow_preemption=cfg["res"][r]))
+                self.orphans[(po[0], r)] = po[1]
+                k.probe("preowned_lock")
+            elif self.cell is not None:
                 self.cell.register_resource(r, cfg["res"][r])
             else:
                 self.sys.register_resource(r, cfg["res"][r])
@@ -393,8 +432,36 @@ class World:
         return {PHASES[n]: [Checkpoint(phase=PHASES[n], condition=mk(n), name="sim_" + n)] for n in PHASES}
 
     # -- history
+    def begin(self, opid, rec):
+        """An operation (re)starts under opid.  False: not allowed now (its own call is still running)."""
+        old = self.live.get(opid)
+        if (old is not None and old.get("in_call")) or opid in self.zombie:
+            return False
+        if old is not None:
+            # the id is still live through the stepping API: that context is abandoned; what it holds belongs to the id
+            # but to no live context until the new one asks for it (id reuse while live is not demanded beyond that)
+            for r, h in old["holds"].items():
+                self.orphans[(opid, r)] = self.orphans.get((opid, r), 0) + h["n"]
+            self.k.probe("context_abandoned")
+        elif opid in self.used:
+            self.k.probe("id_reused_after_end")
+        self.used.add(opid)
+        self.exit.pop(opid, None)
+        self.flags.pop(opid, None)
+        for key in [x for x in self.cp_seen if x[0] == opid]:
+            del self.cp_seen[key]
+        for key in [x for x in self.step_seen if x[0] == opid]:
+            del self.step_seen[key]
+        self.cp_script.pop(opid, None)
+        self.step_script.pop(opid, None)
+        self.live[opid] = rec
+        return True
+
     def _on_acquire(self, opid, r, res):
         self.k.ev("acq", [opid, r, res.name])
+        if res in (LockResult.ACQUIRED, LockResult.PREEMPTED):
+            for key in [x for x in self.orphans if x[1] == r]:
+                del self.orphans[key]        # the lock changed hands
         rec = self.live.get(opid) or self.zombie.get(opid)
         if res in (LockResult.ACQUIRED, LockResult.PREEMPTED, LockResult.REENTRANT):
             self.touched.add(r)
@@ -415,7 +482,12 @@ class World:
         elif res == LockResult.REENTRANT:
             h = holds.setdefault(r, {"n": 0, "shape": "plain_hold"})
             h["n"] += 1
-            h["shape"] = "reentrant_hold"
+            h["shape"] = "reentrant_hold" if h["shape"] != "adopted_hold" else "adopted_hold"
+            if (opid, r) in self.orphans:
+                # the id owned it already; this context takes the hold over and has to give all of it back
+                h["n"] += self.orphans.pop((opid, r))
+                h["shape"] = "adopted_hold"
+                self.k.probe("adopted_hold")
             self.k.probe("reentrant_hold")
             if rec.get("stepped"):
                 self.k.probe("stepped_reentrant_hold")
@@ -424,9 +496,11 @@ class World:
             rec["blocked"] = True
             holder_live = any(r in orec["holds"] for o, orec in list(self.live.items()) + list(self.zombie.items())
                               if o != opid)
-            if not holder_live:
+            owner = self.ctrl.resources[r].owner
+            if not holder_live and (owner, r) in self.orphans:
+                self.k.probe("blocked_on_orphan_hold")
+            elif not holder_live:
                 # behavioural leak: nobody live holds r by the history, yet it cannot be acquired
-                owner = self.ctrl.resources[r].owner
                 self.k.violation("release", "leaked_lock", self.last_shape.get((owner, r), "unknown_hold"),
                                  f"{opid} BLOCKED on {r}: owner {owner!r} ended via {self.exit.get(owner)}")
 
@@ -463,7 +537,9 @@ class World:
             if opid in active:
                 k.violation("inactive", "still_active", call_kind, f"{opid} after {self.exit.get(opid)}")
         for r, (owner, n) in after.items():
-            if owner is not None and owner not in self.live:
+            if owner is not None and (owner, r) in self.orphans:
+                pass         # held by the id outside any live context (abandoned context / registered owned): not judged
+            elif owner is not None and owner not in self.live:
                 k.violation("release", "leaked_lock", self.hold_shape(owner, r),
                             f"{r} owned by {owner} (hold_count={n}) after it ended via {self.exit.get(owner)}")
             elif r not in self.touched and before[r][0] not in self.ended_now and after[r] != before[r]:
@@ -538,12 +614,10 @@ def run(plan, k):
 
     def do_exec(op, depth, tr=None):
         _, opid, reslist, prio, faults = op
-        if opid in w.used:
+        if not w.begin(opid, {"holds": {}, "stepped": False, "in_call": True}):
             return
-        w.used.add(opid)
         st = {"work": 0, "work_done": False, "validate": 0, "held_at_entry": None, "v_ok": None,
               "v_before_work": False, "v_judged": True}
-        w.live[opid] = {"holds": {}, "stepped": False, "in_call": True}
         if faults.get("cp"):
             w.cp_script[opid] = faults["cp"]
         if faults.get("step"):
@@ -707,15 +781,23 @@ def run(plan, k):
             if name == "exec":
                 do_exec(op, 0, tr)
             elif name == "start":
-                if op[1] in w.used:
+                rec = {"holds": {}, "stepped": True}
+                if not w.begin(op[1], rec):
                     continue
-                w.used.add(op[1])
                 out = call(system.start_operation, op[1], "agent-" + op[1], op[2], tracer=tr)
                 if out.kind != "ok":
                     k.violation("returns", out.kind, "start_operation", str(out.exc)[:200])
+                    w.live.pop(op[1], None)
                     continue
-                w.live[op[1]] = {"holds": {}, "stepped": True, "ctx": out.value}
+                rec["ctx"] = out.value
                 k.ev("start", [op[1], op[2]])
+            elif name == "exempt":
+                rec = w.live.get(op[1])
+                if rec is None or "ctx" not in rec:
+                    continue
+                rec["ctx"].metadata["watchdog_exempt"] = True      # public metadata flag read by Watchdog.check
+                k.probe("watchdog_exempt_set")
+                continue
             elif name in ("acq", "rel", "complete", "abort"):
                 rec = w.live.get(op[1])
                 if rec is None or "ctx" not in rec:
